@@ -40,6 +40,15 @@ fn main() {
                 }
             }
         }
-        _ => println!("usage: sim smoke <prop> <n> [from]"),
+        Some("worker") => std::process::exit(gcsim::driver::worker(&args[2..])),
+        Some("check") => std::process::exit(gcsim::driver::check_cmd(&args[2..])),
+        Some("replay") => std::process::exit(gcsim::driver::replay_cmd(&args[2..])),
+        Some("minimize") => std::process::exit(gcsim::driver::minimize_cmd(&args[2..])),
+        Some("one") => std::process::exit(gcsim::driver::one_cmd(&args[2..])),
+        Some("digest") => std::process::exit(gcsim::driver::digest_cmd(&args[2..])),
+        _ => {
+            eprintln!("usage: sim check <ID> quick|thorough | replay <file> [-v] | one <ID> <seed> <index> | digest <ID> <seed> <from> <count> | smoke <ID> <n> [from]");
+            std::process::exit(2)
+        }
     }
 }
